@@ -152,3 +152,27 @@ V("C08", "tile-gx1-256", STUDY, "                tile_gx1 = tile_gx0 + 255", "  
 V("C08", "clone-drift", MWCS, "                    flip_tile_y1 = 255 - tile_y\n                    flip_tile_y0 = flip_tile_y1 - height\n\n                    if flip_tile_y0 == -1:\n                        flip_tile_y0 = None  # with", "                    flip_tile_y1 = 255 - tile_y\n                    flip_tile_y0 = flip_tile_y1 - height + 1\n\n                    if flip_tile_y0 == -1:\n                        flip_tile_y0 = None  # with", "C08.R5")
 V("C08", "P-renamed", STUDY, "                overlap_width = img_overlap_x1 + 1 - img_overlap_x0", "                overlap_width = 1 + (img_overlap_x1 - img_overlap_x0)", "HOLDS")
 V("C08", "P-offset-shift", STUDY, "        self._img_gx0 = (self._p2n - self._width) // 2", "        self._img_gx0 = (self._p2n - self._width) >> 1", "UNDECIDED", note="an equivalent spelling the normaliser does not know: refused, not judged")
+
+# ---------------------------------------------------------------- C09
+V("C09", "worker-no-flip", MTAN, "        if image.get_parity_sign() != tile_parity_sign:\n            image.flip_parity()\n\n        for (", "        for (", "C09.R")
+V("C09", "reflection-off-by-one", MTAN, "                        tile_y = 256 - (tile_y + height)\n", "                        tile_y = 255 - (tile_y + height)\n", "C09.R")
+V("C09", "no-cleanup", MTAN, "        pio.clean_lockfiles(self._tiling._tile_levels)\n", "", "C09.R4")
+V("C09", "cleanup-level", MTAN, "        pio.clean_lockfiles(self._tiling._tile_levels)\n", "        pio.clean_lockfiles(self._tiling._tile_levels - 1)\n", "C09.R4")
+V("C09", "direct-write", MTAN, "            with pio.update_image(\n                pos, masked_mode=image.mode, default=\"masked\"\n            ) as basis:\n                image.update_into_maskable_buffer(basis, iy_idx, ix_idx, by_idx, bx_idx)\n",
+  "            basis = pio.read_image(pos, masked_mode=image.mode, default=\"masked\")\n            image.update_into_maskable_buffer(basis, iy_idx, ix_idx, by_idx, bx_idx)\n            pio.write_image(pos, basis)\n", "C09.R3")
+V("C09", "crpix-order-dependent", MTAN, 'ref_headers["CRPIX1"] = this_crpix1 + 1 + (mtdesc.crxmin - global_crxmin)', 'ref_headers["CRPIX1"] = this_crpix1 + 1 - global_crxmin', "C09.R5")
+V("C09", "imax-floor", MTAN, "            desc.imax = int(np.ceil(desc.crxmax - global_crxmin))", "            desc.imax = int(np.floor(desc.crxmax - global_crymin))", "C09.R5")
+V("C09", "global-min-of-max", MTAN, "                global_crxmax = max(global_crxmax, mtdesc.crxmax)", "                global_crxmax = min(global_crxmax, mtdesc.crxmax)", "C09.R5")
+V("C09", "subimage-width", MTAN, "                desc.imax + 1 - desc.imin,", "                desc.imax - desc.imin,", "C09.R5")
+V("C09", "P-flip-spelling", MTAN, "                if image.get_parity_sign() != tile_parity_sign:\n                    image.flip_parity()", "                if tile_parity_sign != image.get_parity_sign():\n                    image.flip_parity()", "HOLDS")
+
+# ---------------------------------------------------------------- C10
+V("C10", "no-lock", PYR, "        with SoftFileLock(p + \".lock\"):\n            img = self.read_image(\n                pos,\n                default=default,\n                masked_mode=masked_mode,\n                format=format or self._default_format,\n            )\n\n            yield img\n            self.write_image(pos, img, format=format or self._default_format)",
+  "        img = self.read_image(\n            pos,\n            default=default,\n            masked_mode=masked_mode,\n            format=format or self._default_format,\n        )\n\n        yield img\n        self.write_image(pos, img, format=format or self._default_format)", "C10.R")
+V("C10", "write-after-with", PYR, "            yield img\n            self.write_image(pos, img, format=format or self._default_format)", "            yield img\n\n        self.write_image(pos, img, format=format or self._default_format)", "C10.R1")
+V("C10", "pid-in-key", PYR, 'with SoftFileLock(p + ".lock"):', 'with SoftFileLock(p + ".%d.lock" % os.getpid()):', "C10.R3")
+V("C10", "threading-lock", PYR, "        from filelock import SoftFileLock\n\n        p = self.tile_path(pos)\n\n        with SoftFileLock(p + \".lock\"):", "        from threading import Lock\n\n        p = self.tile_path(pos)\n\n        with Lock():", "C10.R2")
+V("C10", "write-other-format", PYR, "            self.write_image(pos, img, format=format or self._default_format)", "            self.write_image(pos, img, format=format)", "HOLDS",
+  note="format=None resolves to the default format inside write_image: same file")
+V("C10", "write-other-pos", PYR, "            yield img\n            self.write_image(pos, img, format=format or self._default_format)", "            yield img\n            self.write_image(Pos(pos.n, pos.x, pos.y + 1), img, format=format or self._default_format)", "C10.R4")
+V("C10", "P-filelock", PYR, "        from filelock import SoftFileLock\n\n        p = self.tile_path(pos)\n\n        with SoftFileLock(p + \".lock\"):", "        from filelock import FileLock\n\n        p = self.tile_path(pos)\n\n        with FileLock(p + \".lock\"):", "HOLDS")
